@@ -395,6 +395,7 @@ func runC16(in *driver.WorkerIn) *driver.WorkerOut {
 	nontrivial := map[uint64]struct{}{}
 	found := map[string]*driver.Found{}
 	handle := func(p Program, enum bool) {
+		driver.Progress()
 		st.programs++
 		st.maxLen = max(st.maxLen, len(p.Ops))
 		h := driver.StrSeed(p.String())
